@@ -87,9 +87,9 @@ Definition leaf_ty (leaf : value) : ty :=
 Definition fim_static (m k1 k2 : str) : ty :=
   match lookup m maps with
   | Some (VDict top) =>
-      match lookup k1 top with
+      match lookup_bk k1 top with
       | Some (VDict snd_) =>
-          match lookup k2 snd_ with
+          match lookup_bk k2 snd_ with
           | None | Some VNull => TStr
           | Some leaf => leaf_ty leaf
           end
